@@ -20,7 +20,7 @@ func main() {
 	id := os.Args[1]
 	if id == "__load" && len(os.Args) >= 4 {
 		// child process of C11's strace pass: load one real file with the default reader
-		checks.LoadForStrace(os.Args[2], os.Args[3] == "true")
+		checks.LoadForStrace(os.Args[2], os.Args[3])
 		return
 	}
 	fs := flag.NewFlagSet("vcheck", flag.ExitOnError)
